@@ -8,6 +8,7 @@ import LlgVerif.Model.Engine
 import LlgVerif.Model.Slicer
 import LlgVerif.Model.Stop
 import LlgVerif.Model.Shared
+import LlgVerif.Model.TokRanges
 import Driver.Util
 open LlgVerif Drv
 
@@ -376,6 +377,18 @@ def handleShared (st : St) (args : List String) : St × String :=
     | none => (st, "bad-op")
   | _ => (st, "bad-op")
 
+/-- `ranges neg <vocab> <lo:hi,...>` -> negated ranges or err -/
+def handleRanges (args : List String) : String :=
+  match args with
+  | ["neg", vocab, rs] =>
+    match parseNat? vocab, parseRanges? rs with
+    | some vocab, some rs =>
+      match negatedRanges? vocab rs with
+      | some out => "ok " ++ (if out.isEmpty then "-" else ",".intercalate (out.map (fun r => s!"{r.1}:{r.2}")))
+      | none => "err"
+    | _, _ => "bad-op"
+  | _ => "bad-op"
+
 def handleTrie (st : St) (args : List String) : St × String :=
   match args with
   | ["build", ws] =>
@@ -435,6 +448,7 @@ def step (st : St) (line : String) : St × String :=
   | "slice" :: args => handleSlice st args
   | "stop" :: args => handleStop st args
   | "shared" :: args => handleShared st args
+  | "ranges" :: args => (st, handleRanges args)
   | "rb" :: args => handleRb st args
   | ["reset"] => ({}, "ok")
   | _ => (st, "bad-op")
